@@ -41,6 +41,13 @@ Theorem C24_first_definition_wins_order_dependent_iff :
   (exists f g, In f l /\ In g l /\ defines f x = true /\ defines g x = true /\ f_id f <> f_id g).
 Proof. exact first_definition_wins_order_dependent_iff. Qed.
 
+(* Known finding (key order:generic-instance-emission-order): the order in which generic instances are
+   registered - and their copies emitted - follows the processing order of the using files, so the
+   emitted text is NOT an id_invariant output in the sense above *)
+Theorem C24_generic_instance_emission_order_refuted :
+  exists u1 u2, Permutation u1 u2 /\ reg_order u1 [] <> reg_order u2 [].
+Proof. exact generic_instance_emission_order_refuted. Qed.
+
 (* Non-vacuity *)
 Example C24_hypotheses_met :
   all_wf [ex_delta; ex_delta] /\ all_closed [ex_delta; ex_delta] /\
@@ -74,3 +81,4 @@ Print Assumptions C24_id_renaming_invariance_partial.
 Print Assumptions C24_states_differ_by_block_renaming.
 Print Assumptions C24_no_dup_resolve_order_independent.
 Print Assumptions C24_first_definition_wins_order_dependent_iff.
+Print Assumptions C24_generic_instance_emission_order_refuted.
